@@ -148,8 +148,11 @@ TEXT = {
             "Reads (PartialReads.v): the element iterator is simulated by the complete tree's, the packed / bit iterators and "
             "the object export agree with the complete tree whenever both return, and a successful export of a partial "
             "version of a tree representing a value is that value's export (C17_export_is_value). "
-            "Error classes of composed operations and iterators stepped on after a failure: "
-            "correspondence + model-free comparison of every read path with the complete tree.",
+            "Other direction (PartialErrors.v, premise Hinj): where the complete tree answers, every view operation and the "
+            "serialisation on the partial tree give the related answer or a navigation error (index error where the code "
+            "re-labels it) — C17_view_ops_two_way; a store command that succeeds on the complete store fails on the partial "
+            "store only with such an error (C17_store_errors). Error class of iterators / export and iterators stepped on "
+            "after a failure: correspondence + model-free comparison of every read path with the complete tree.",
             "Coq proof (simulation relation summ, induction on paths) + correspondence", "5 (C17)"),
     "C18": ("Theorems: get_target_history (model of the fixed code, recursion on the gindex path with per-level "
             "de-duplication) equals 'look the position up in every entry and drop consecutive repeats' on keys and roots, "
